@@ -533,15 +533,20 @@ class Doist(tyming.Tymist):
             if doer in self.doers and doer not in rdoers:  # ensure in .doers once
                 rdoers.append(doer)
         rdeeds = deque()  # fresh deque for deeds to remove
+        undone = deque()  # deeds to remove not yet rerun in ongoing recur pass
+        marked = False  # True once run through once marker found in deeds
         deeds = self.deeds  # edit update self.deeds in place
         for i in range(len(deeds)):  # iterate once over each deed
             dog, retyme, doer = deeds.popleft()
             if not dog:  # reappend the run through once marker deed
                 deeds.append((dog, retyme, doer))
+                marked = True  # deeds after marker have rerun so entered earlier
+                undone, rdeeds = rdeeds, undone  # so far found come after rest
             elif doer in rdoers:  # found deed to remove and close
                 rdeeds.append((dog, retyme, doer))  # add to removal deque
             else:  # keep deed do not remove and close
                 deeds.append((dog, retyme, doer))  # reappend
+        rdeeds.extend(undone)  # removal deque in enter order
 
         for doer in rdoers:  # update .doers to remove rdoers
             self.doers.remove(doer)
@@ -1424,15 +1429,20 @@ class DoDoer(Doer):
             if doer in self.doers and doer not in rdoers:  # ensure in .doers once
                 rdoers.append(doer)
         rdeeds = deque()  # fresh deque for deeds to remove
+        undone = deque()  # deeds to remove not yet rerun in ongoing recur pass
+        marked = False  # True once run through once marker found in deeds
         deeds = self.deeds  # edit update self.deeds in place
         for i in range(len(deeds)):  # iterate once over each deed
             dog, retyme, doer = deeds.popleft()
             if not dog:  # reappend the run through once marker deed
                 deeds.append((dog, retyme, doer))
+                marked = True  # deeds after marker have rerun so entered earlier
+                undone, rdeeds = rdeeds, undone  # so far found come after rest
             elif doer in rdoers:  # found deed to remove and close
                 rdeeds.append((dog, retyme, doer))  # add to removal deque
             else:  # keep deed do not remove and close
                 deeds.append((dog, retyme, doer))  # reappend
+        rdeeds.extend(undone)  # removal deque in enter order
 
         for doer in rdoers:  # update .doers to remove rdoers
             self.doers.remove(doer)
